@@ -118,6 +118,10 @@ def gen_cases(tier: str, verif_seed: int, runs: int | None = None) -> list[dict]
                     cases.append(c)
                 p = prng()
                 cases.append(_base(p, w, fault=dict(kind="empty_center", pos=pos)))
+                p = prng()
+                c = _base(p, w, fault=dict(kind="empty_center", pos=pos))
+                c["patch"]["centers_from_catalog"] = True  # the centres come as another catalog
+                cases.append(c)
             # --- structural faults
             for delta in (-1, 1, -7):
                 p = prng()
